@@ -550,7 +550,7 @@ Section Obj.
             | Some _ => Unmodelled
             | None => Ok tt
             end;
-    do _ <- constr_all (eval_constr pattern_ok fuel c setting)
+    do _ <- constr_all (eval_constr vr pattern_ok fuel c setting)
                        ((match cfamily c with FExt => [CAtLeastOneDefault] | _ => [] end) ++ ccons c);
     if allow then Ok (PObject (cid c) setting defaulted hc)
     else if hc then Err ESTIXError else Ok (PObject (cid c) setting defaulted false).
